@@ -14,7 +14,8 @@ EXPLANATION = (
     "into it by an order-preserving chain (drain(..) + collect); the list is mutated only by extend / "
     "drain / clear, taken only by the completion step and the parser reset, and a request under construction "
     "starts with an empty list (the completion step assigns the field); none of try_clone, dup, into_raw_fd, as_raw_fd->from_raw_fd, mem::forget, "
-    "ManuallyDrop is applied in connection.rs / request.rs. With File: !Clone and drop-closes these "
+    "ManuallyDrop is applied in connection.rs / request.rs; between the receive and the wrapping the descriptor array is left alone "
+    "(no libc call, no store into it), and the received files / Request.files are written only by the read side. With File: !Clone and drop-closes these "
     "imply exactly-once, ordered, leak-free delivery."
 )
 TRUSTED = ["ScmSocket::recv_with_fds stores fd_count <= fds.len() descriptors in order", "File is !Clone and closes on drop", "Vec::drain(..)/extend/collect preserve order"]
@@ -36,11 +37,41 @@ def run(ctx):
     from .c06 import _Remap
     from . import c03
     ctx.guarded("R12.6", "stream", lambda: c03.stream(_Remap(ctx, "R12.6")))
+    ctx.rule("R12.7", "the received files and Request.files are written only by the read side, the latter only where a request is created and at the hand-over on completion (= C01 R01.10): descriptors adopted earlier would be overwritten, and so closed, by that hand-over")
+    from . import c01
+    ctx.guarded("R12.7", "read-side-owns", lambda: c01.read_side_owns(_Remap(ctx, "R12.7"), "R01.10", fields=("files",)))
+    ctx.rule("R12.8", "between the receive and the wrapping the descriptor array is left alone: no foreign call (fcntl, dup, close) and no store into it on the receive path -- a descriptor swapped for a duplicate leaves the original open for ever")
+    ctx.guarded("R12.8", "array-untouched", lambda: array_untouched(ctx))
     ctx.guarded("R12.1", "wrap", lambda: wrap(ctx))
     ctx.guarded("R12.2", "append", lambda: append(ctx))
     ctx.guarded("R12.3", "move", lambda: move(ctx))
     ctx.guarded("R12.4", "apis", lambda: apis(ctx))
     ctx.guarded("R12.5", "mutators", lambda: fifo(ctx, "R12.5", "files", {"extend", "drain", "clear", "append", "extend_from_slice", "take", "push", "reserve", "reserve_exact"}, floor=2))
+
+
+def array_untouched(ctx):
+    facts = ctx.facts
+    n = 0
+    for name in (conn.RECV, conn.READ_BYTES):
+        if not facts.has_fn(name):
+            continue
+        f = facts.fn(name)
+        ctx.touched(f)
+        n += 1
+        foreign = sorted({(t["callee"].get("path") or "") for _bb, t in f.calls() if (t["callee"].get("path") or "").startswith("libc::")})
+        ctx.ob("R12.8", "no-foreign-call|%s" % name.rsplit("::", 1)[-1], not foreign, "%s makes no libc call of its own (found %s): the receive goes through ScmSocket::recv_with_fds and the descriptors through File::from_raw_fd" % (name.rsplit("::", 1)[-1], foreign), f.loc(0))
+        # stores into a local array of i32 (the descriptor array) other than its initialisation
+        arrays = [i for i, l in enumerate(f.locals) if (l["ty"].get("k") == "array" and (l["ty"].get("elem") or {}).get("s") in ("i32", "std::os::fd::RawFd"))]
+        stores = []
+        for bi, si, place, rv in f.assigns():
+            if place["proj"] and place["local"] in arrays:
+                stores.append(bi)
+            if place["proj"] and place["proj"][0]["k"] == "deref":
+                ty = f.locals[place["local"]]["ty"]
+                if ty.get("k") == "ref" and ty.get("mut") and (ty.get("to") or ty.get("inner") or {}).get("s") == "i32":
+                    stores.append(bi)
+        ctx.ob("R12.8", "no-store-into-the-array|%s" % name.rsplit("::", 1)[-1], not stores, "%s stores nothing into the descriptor array or through a &mut i32 (blocks %s)" % (name.rsplit("::", 1)[-1], sorted(set(stores))[:6]), f.loc(stores[0] if stores else 0))
+    ctx.ob("R12.8", "floor", n >= 1, "%d receive-side function(s) inspected" % n)
 
 
 def wrap(ctx):
